@@ -52,16 +52,23 @@ func genBatchRetry(r *rng, thorough bool, emit func(FlowScenario)) {
 	}
 }
 
-// long paths: a self-loop / a two-node cycle taken many more times than any plausible step limit before it exits
+// long paths: a self-loop / a two-node cycle taken many more times than any plausible step limit before it exits. The
+// looping visits share one default script per node; only the exiting visit has a script of its own.
 func genLongLoops(r *rng, thorough bool, emit func(FlowScenario)) {
 	t := &tokGen{r: r}
-	lens := []int{1100}
+	lens := []int{1100, 10500}
 	if thorough {
-		lens = []int{1100, 2600}
+		lens = []int{1100, 2600, 10500, 25000}
 	}
+	// the model's visit counters make a run of n visits cost O(n^2): beyond 3000 visits only the self-loop in the quick tier,
+	// and nothing beyond 11000 visits of a two-node cycle
+	skip := func(n int, two bool) bool { return two && (n > 11000 || (!thorough && n > 3000)) }
 	leaf := LeafCfg{Retryable: true, Budget: 1, Fb: "pass", PrepS: "direct", ExecS: "direct", PostS: "direct"}
 	for _, n := range lens {
 		for _, two := range []bool{false, true} {
+			if skip(n, two) {
+				continue
+			}
 			a, b := leaf, leaf
 			sc := FlowScenario{Kind: "canceled", Ctx0: "live", LeafScripts: []LeafScript{}, BatchScripts: []BatchScript{}}
 			sc.Nodes = []NodeDef{{ID: 0, Leaf: &a}, {ID: 1, Leaf: &b}}
@@ -71,27 +78,24 @@ func genLongLoops(r *rng, thorough bool, emit func(FlowScenario)) {
 			}
 			sc.Nodes = append(sc.Nodes, NodeDef{ID: 2, Flow: &FlowDef{Start: ip(0), Ops: ops}})
 			t.next, t.errN = r.intn(30), 0
-			for v := 0; v < n; v++ {
-				post := "=again"
-				if v == n-1 && !two {
-					post = "=out"
-				}
-				s := t.leafScript(0, v, true, 1, 1, true, post)
-				s.Prep, s.Exec = "t1", []string{"t2"} // small constant payloads: these scenarios are long enough
-				sc.LeafScripts = append(sc.LeafScripts, s)
-				if two {
-					post = "=again"
-					if v == n-1 {
-						post = "=out"
-					}
-					s2 := t.leafScript(1, v, true, 1, 1, true, post)
-					s2.Prep, s2.Exec = "t1", []string{"t2"}
-					sc.LeafScripts = append(sc.LeafScripts, s2)
-				}
+			loop := func(id int) LeafScript {
+				s := t.leafScript(id, 0, true, 1, 1, true, "=again")
+				s.Prep, s.Exec = "t1", []string{"t2"}
+				return s
 			}
-			if !two {
-				s := t.leafScript(1, 0, true, 1, 1, true, "=done")
-				sc.LeafScripts = append(sc.LeafScripts, s)
+			exit := func(id, v int, post string) LeafScript {
+				s := t.leafScript(id, v, true, 1, 1, true, post)
+				s.Prep, s.Exec = "t1", []string{"t2"}
+				return s
+			}
+			if two {
+				sc.NodeDefaults = []LeafScript{loop(0), loop(1)}
+				sc.LeafScripts = append(sc.LeafScripts, exit(1, n-1, "=out"))
+				sc.Longest = 2 * n
+			} else {
+				sc.NodeDefaults = []LeafScript{loop(0)}
+				sc.LeafScripts = append(sc.LeafScripts, exit(0, n-1, "=out"), exit(1, 0, "=done"))
+				sc.Longest = n + 1
 			}
 			sc.Steps = []Step{{Run: ip(2)}}
 			emit(sc)
@@ -331,6 +335,7 @@ func genC17(r *rng, thorough bool, emit func(FlowScenario)) {
 }
 
 func genC18(r *rng, thorough bool, emit func(FlowScenario)) {
+	genLongLoops(r, thorough, emit)
 	t := &tokGen{r: r}
 	// … including nodes whose BaseNode is the zero value (never went through NewBaseNode): cancellation-free runs only
 	nilPtrKind := LeafCfg{Retryable: false, Fb: "absent", PrepS: "direct", ExecS: "direct", PostS: "direct", Impl: "nilptr"}
@@ -626,5 +631,48 @@ func genRetriedFlows(r *rng, thorough bool, emit func(FlowScenario)) {
 			}
 		}
 		emit(sc)
+	}
+}
+
+// a flow nested in ITSELF (directly: F's table sends a node of F to F; or through a second flow: F inside G inside F), with
+// scripts that make the recursion end: a node like any other as far as routing goes — entered again before the enclosing
+// execution of the same flow object has finished
+func genSelfNest(r *rng, emit func(FlowScenario)) {
+	t := &tokGen{r: r}
+	leaf := LeafCfg{Retryable: true, Budget: 2, Fb: "pass", PrepS: "direct", ExecS: "direct", PostS: "direct"}
+	for depth := 1; depth <= 3; depth++ {
+		for _, mutual := range []bool{false, true} {
+			for _, failDeep := range []bool{false, true} {
+				a, b := leaf, leaf
+				sc := FlowScenario{Kind: "canceled", Ctx0: "live", LeafScripts: []LeafScript{}, BatchScripts: []BatchScript{}}
+				// 0 = A (descends `depth` times, then stops), 1 = B (runs after each return), 2 = F, 3 = G (mutual only)
+				sc.Nodes = []NodeDef{{ID: 0, Leaf: &a}, {ID: 1, Leaf: &b}}
+				if mutual {
+					sc.Nodes = append(sc.Nodes,
+						NodeDef{ID: 2, Flow: &FlowDef{Start: ip(0), Ops: []Conn{{Src: 0, Action: "down", Dst: ip(3)}, {Src: 3, Action: "stop", Dst: ip(1)}, {Src: 3, Action: "default", Dst: ip(1)}}}},
+						NodeDef{ID: 3, Flow: &FlowDef{Start: ip(1), Ops: []Conn{{Src: 1, Action: "default", Dst: ip(2)}}}})
+				} else {
+					sc.Nodes = append(sc.Nodes,
+						NodeDef{ID: 2, Flow: &FlowDef{Start: ip(0), Ops: []Conn{{Src: 0, Action: "down", Dst: ip(2)}, {Src: 2, Action: "stop", Dst: ip(1)}, {Src: 2, Action: "default", Dst: ip(1)}}}})
+				}
+				t.next, t.errN = r.intn(30), r.intn(20)
+				for v := 0; v <= depth; v++ {
+					post := "=down"
+					if v == depth {
+						post = "=stop"
+					}
+					s := t.leafScript(0, v, true, 1, 2, true, post)
+					if failDeep && v == depth {
+						s = t.leafScript(0, v, true, 0, 3, false, post) // the innermost execution fails: every enclosing one fails with it
+					}
+					sc.LeafScripts = append(sc.LeafScripts, s)
+				}
+				for v := 0; v <= 2*depth+1; v++ {
+					sc.LeafScripts = append(sc.LeafScripts, t.leafScript(1, v, true, 1, 2, true, "="))
+				}
+				sc.Steps = []Step{{Run: ip(2)}}
+				emit(sc)
+			}
+		}
 	}
 }
